@@ -142,6 +142,8 @@ func c18Types() []c18Type {
 	generic := [][]string{
 		{"DEL", "k1"}, {"DEL", "k1", "k2"}, {"EXISTS", "k1", "k2", "k1"}, {"RENAME", "k1", "k2"}, {"RENAME", "k2", "k1"}, {"RENAME", "k1", "k1"},
 		{"RENAMENX", "k1", "k2"}, {"RENAMENX", "k2", "k2"}, {"TYPE", "k1"}, {"TYPE", "k2"}, {"KEYS", "*"}, {"KEYS", "k?"},
+		// repeated and missing keys in one request
+		{"EXISTS", "k1", "k2", "k1"}, {"DEL", "k1", "k1"}, {"DEL", "k3", "k2", "k3"}, {"EXISTS", "k3"},
 	}
 	common := [][]string{{"EXISTS", "k1"}, {"EXISTS", "k2"}, {"TYPE", "k1"}, {"TYPE", "k2"}, {"KEYS", "*"}}
 	var str, hash, list, set, zset [][]string
@@ -161,13 +163,14 @@ func c18Types() []c18Type {
 			}
 			hash = append(hash, []string{"HSETNX", k, f, ""}, []string{"HGET", k, f}, []string{"HDEL", k, f}, []string{"HEXISTS", k, f})
 		}
-		hash = append(hash, []string{"HDEL", k, "a", "b"}, []string{"HGETALL", k}, []string{"HLEN", k}, []string{"HKEYS", k}, []string{"HVALS", k},
+		hash = append(hash, []string{"HDEL", k, "a", "a"}, []string{"HMSET", k, "a", "1", "a", "2"}, []string{"HMGET", k, "a", "a"}, []string{"HSTRLEN", k, "a"},
+			[]string{"HDEL", k, "a", "b"}, []string{"HGETALL", k}, []string{"HLEN", k}, []string{"HKEYS", k}, []string{"HVALS", k},
 			[]string{"HMSET", k, "a", "1", "b", ""}, []string{"HMGET", k, "b", "a", "zz"})
 		for _, v := range []string{"x", "y\r\nz"} {
 			list = append(list, []string{"LPUSH", k, v}, []string{"RPUSH", k, v})
 		}
 		list = append(list, []string{"LPUSH", k, "a", "b"}, []string{"RPUSH", k, "a", "b"}, []string{"LPUSHX", k, "c"}, []string{"RPUSHX", k, "c"},
-			[]string{"LPOP", k}, []string{"LPOP", k, "2"}, []string{"RPOP", k}, []string{"RPOP", k, "2"},
+			[]string{"LPOP", k}, []string{"LPOP", k, "2"}, []string{"RPOP", k}, []string{"RPOP", k, "2"}, []string{"LPOP", k, "9"}, []string{"LPUSH", k, "a", "a"},
 			[]string{"LRANGE", k, "0", "-1"}, []string{"LRANGE", k, "1", "1"}, []string{"LRANGE", k, "-1", "5"}, []string{"LINDEX", k, "0"}, []string{"LINDEX", k, "-1"}, []string{"LINDEX", k, "1"}, []string{"LLEN", k})
 		for _, m := range []string{"a", "b"} {
 			set = append(set, []string{"SADD", k, m}, []string{"SREM", k, m}, []string{"SISMEMBER", k, m})
@@ -176,7 +179,8 @@ func c18Types() []c18Type {
 			}
 			zset = append(zset, []string{"ZREM", k, m}, []string{"ZSCORE", k, m}, []string{"ZINCRBY", k, "1", m}, []string{"ZINCRBY", k, "-1", m})
 		}
-		set = append(set, []string{"SADD", k, "a", "b", "a"}, []string{"SREM", k, "a", "b"}, []string{"SMEMBERS", k}, []string{"SCARD", k})
+		set = append(set, []string{"SREM", k, "a", "a"}, []string{"SREM", k, "zz", "a"},
+			[]string{"SADD", k, "a", "b", "a"}, []string{"SREM", k, "a", "b"}, []string{"SMEMBERS", k}, []string{"SCARD", k})
 		zset = append(zset, []string{"ZADD", k, "2", "a", "1", "b"}, []string{"ZRANGE", k, "0", "-1"}, []string{"ZRANGE", k, "0", "-1", "WITHSCORES"},
 			[]string{"ZRANGEBYSCORE", k, "1", "2"}, []string{"ZRANGEBYSCORE", k, "-inf", "+inf", "WITHSCORES"}, []string{"ZRANGEBYSCORE", k, "(1", "2"}, []string{"ZCARD", k},
 			// partial index ranges (tie order is left open by the oracle), the
